@@ -1,5 +1,5 @@
-(* Model/Binning.v — tea-map/src/valid_iter.rs: vcut (384-478), vsorted_unique_idx (491-545),
-   vsorted_unique (565-588).  Definitions only (always runnable).
+(* Model/Binning.v — tea-map/src/valid_iter.rs: vcut (384-484), vsorted_unique_idx (500-557),
+   vsorted_unique (577-600).  Definitions only (always runnable).
 
    The model is generic in the element type A with its comparison booleans (Rust `<`, `<=`, `==` on
    T::Inner), so that the same definitions run at Z (i32 / Option<i32>) and at PrimFloat (f64); the
